@@ -28,6 +28,16 @@ claimed = {
   note="a queue write may persist as any prefix until the following Sync returns (8-byte footer rewrites taken as atomic); file times stamped from the simulated clock; the torn-append format weakness is a listed known finding; the buffered (>=10 concurrent writers) path is left to C19",
   technique=SIM + ": crash images from pre/post file content at verifhook write events, FIFO queue reference model, fake-clock processor runs",
   ref="3 C04"),
+ "C06": dict(
+  text="Logs of 1-60 metadata commands of all kinds (hand-encoded protobufs with arbitrary, repeated, conflicting and invalid arguments) applied on 8 replicas of the real storeFSM: 4 live with seeded fake-time gaps, 4 later on another clock with seeded Snapshot->Persist->Restore cycles; after every command canonical forms and Apply results must agree on all replicas and the invariants (disjoint live groups, unique never-reused ids, owner count and spread, no non-existent owners, rejected => unchanged) must hold.",
+  note="raft is replaced by handing the same log to every replica (consensus is C07's subject); legacy CreateNode/RemovePeer/SetData commands are not generated; ties broken by Go map order show as divergence only with probability >= 7/8 per tie (map order is not seedable)",
+  technique=SIM + ": replicated state machine replicas on skewed fake clocks with snapshot/restore restarts, canonical-form comparison, invariant checker",
+  ref="3 C06"),
+ "C07": dict(
+  text="State-machine level (real storeFSM): snapshots taken at seeded log positions and persisted only after 0-12 further commands (the interleaving raft's snapshot goroutine produces) must restore to exactly the state at the snapshot position (full fidelity incl. deleted groups), and a node restarted from one must converge after replaying the suffix; request bodies of every command type with absent / foreign / empty / garbage / truncated / over-long extensions: whatever the execute endpoint's validation accepts must apply without panic.",
+  note="hashicorp/raft, the bbolt log, the HTTP endpoints and the meta client are NOT run by this check: leader failover, partitions and real node restarts are not exercised; raft is trusted to deliver one committed log to every node and to call Snapshot/Persist/Restore as documented",
+  technique=SIM + ": plan-decided interleaving of FSM snapshot persistence with further applies, canonical-form comparison, hostile request bodies against validateCommand+Apply",
+  ref="3 C07 (single-thread mode)"),
  "C08": dict(
   text="1-3 real PointsWriters map batches behind lagging copies of one real meta.Data while a seeded metadata history runs (alter shard duration, pre-create, truncate, delete groups, add/remove nodes, clock advance); timestamps at group start/end/truncation +-1ns, now-retention, extremes; conservation, dropped iff older than retention, group = what the metadata designates, shard = fnv64a(canonical key) mod n.",
   note="meta client is a stub restating the real client's cache-then-create logic over real meta.Data (raft replaced by a serialised apply); a group is accepted if any metadata version the node held during the call designates it",
